@@ -49,17 +49,18 @@ ValueTampers  == {"sv_subst", "sv_trunc", "sv_long", "sv_empty", "sv_absent"}
 Tampers  == SignedTampers \cup ValueTampers
 Outcomes == {"accept", "reject", "raiseV", "raiseT"}
 
-\* Named deviations: places where the code does something a maintainer would probably call a defect.  They are
-\* modelled (the check passes on the unchanged tree) and visible (Intended # Verdict exactly there; the evidence
-\* counts how the library behaves on those cases).  A library that answers the intended "reject" there conforms as well.
-\*   DevLateKeyImport  from_key / from_cert never look at the key bits; Ecc/Rsa/Ed25519Checker import them on
+\* Deviation switches.  Both defects below were found by this check and are REPAIRED in the library (commit 83a1840
+\* "key-based validators answer False instead of raising ..."): the model is strict, `Deviations` is empty and only the
+\* intended "reject" conforms - a regression of the fix is a violation.  The switches stay as documentation of the old
+\* behaviour (`Legacy`), for the witnesses that the repaired situations are in the case space, and for sensitivity tests.
+\*   DevLateKeyImport  (old) from_key / from_cert never look at the key bits; Ecc/Rsa/Ed25519Checker imported them on
 \*                     EVERY validation, after the KeyLocator and SignatureType tests: bits the algorithm cannot
-\*                     import make the validator raise ValueError (packet by packet) instead of failing at
-\*                     construction or answering False.
-\*   DevNoSigValue     a packet with SignatureInfo but without SignatureValue element: verify_ecdsa / verify_rsa /
-\*                     verify_ed25519 call bytes(None) -> TypeError escapes the validator (HmacChecker and
-\*                     sha256_digest_checker answer False for the same packet).
-Deviations == {"DevLateKeyImport", "DevNoSigValue"}
+\*                     import made the validator raise ValueError packet by packet.  Now: False.
+\*   DevNoSigValue     (old) a packet with SignatureInfo but without SignatureValue element: verify_ecdsa / verify_rsa /
+\*                     verify_ed25519 called bytes(None) -> TypeError escaped the validator (HmacChecker and
+\*                     sha256_digest_checker answered False for the same packet).  Now: False.
+RepairedDeviations == {"DevLateKeyImport", "DevNoSigValue"}
+Deviations == {}
 
 \* what the packet's SignatureValue is, cryptographically: a valid signature of algorithm T under key k over the
 \* signed portion as received  <=>  it was made by T with k and nothing was touched since
@@ -114,13 +115,13 @@ VerdictD(c, p, dev) ==
   ELSE IF c.fn = "union" THEN UnionOut([i \in 1..Len(c.mem) |-> VerdictD(c.mem[i], p, dev)])
   ELSE KeyChecker(c.fn, c.ckey, p, dev)
 
-Verdict(c, p)  == VerdictD(c, p, Deviations)       \* as coded
-Intended(c, p) == VerdictD(c, p, {})               \* what a maintainer would want
+Verdict(c, p)  == VerdictD(c, p, Deviations)          \* the model the library is compared with
+Intended(c, p) == VerdictD(c, p, {})                  \* (= Verdict while Deviations is empty)
+Legacy(c, p)   == VerdictD(c, p, RepairedDeviations)  \* what the code did before the repairs
 \* number of top-level members a union invokes (0 for the other checkers: nothing to count)
 Calls(c, p) == IF c.fn = "union" THEN UnionCalls([i \in 1..Len(c.mem) |-> Verdict(c.mem[i], p)]) ELSE 0
-\* what a conforming library may produce: v (as coded today) or alt (the intention: what it answers once a deviation is
-\* repaired).  Deviations widen, never narrow: both are refusals, see P_DevBounded.
-Out(c, p) == [v |-> Verdict(c, p), calls |-> Calls(c, p), alt |-> Intended(c, p)]
+\* v / calls: what a conforming library produces (compared strictly);  old: what the unrepaired code produced
+Out(c, p) == [v |-> Verdict(c, p), calls |-> Calls(c, p), old |-> Legacy(c, p)]
 
 \* ---------------------------------------------------------------- packets the executor can build
 WellFormed(p) ==
@@ -167,11 +168,10 @@ P_Union(c, p) == c.fn = "union" =>
      /\ (\A i \in 1..Len(outs) : outs[i] \in {"accept", "reject"}) => Verdict(rev, p) = Verdict(c, p)
      /\ Verdict(c, p) \in {"raiseV", "raiseT"} => \E i \in 1..Len(outs) : outs[i] = Verdict(c, p)
      /\ Calls(c, p) <= Len(c.mem) /\ (Verdict(c, p) = "accept" => Calls(c, p) = Len(c.mem))
-\* the deviations are bounded: where the code differs from the intention, the intention is "reject" and the code
-\* raises - it never accepts what the intention refuses
-P_DevBounded(c, p) == Verdict(c, p) # Intended(c, p) =>
-  /\ Intended(c, p) = "reject"
-  /\ Verdict(c, p) \in {"raiseV", "raiseT"}
-  /\ Intended(c, p) # "accept"
+\* no checker raises any more; the repairs changed nothing but exceptions into refusals: where the old code differs
+\* from the model it raised and the model refuses
+P_DevBounded(c, p) ==
+  /\ Verdict(c, p) = Intended(c, p) /\ Verdict(c, p) \in {"accept", "reject"}
+  /\ Legacy(c, p) # Verdict(c, p) => Verdict(c, p) = "reject" /\ Legacy(c, p) \in {"raiseV", "raiseT"}
 P_Total(c, p) == Verdict(c, p) \in Outcomes /\ Intended(c, p) \in {"accept", "reject"}
 =============================================================================
